@@ -6,6 +6,13 @@ checks the laws (LaxSuperset, LaxOnlyDocumented, LaxPropagates, StrictEqUpstream
 RoundTrip, ...) on the model and exports every case; harness/c10 realizes each case as bytes (own DER
 builder) + reflect-built Go types and compares the three real decoders with the verdict.  Oracle-free
 laws are additionally run on seeded byte-level mutations of the generated inputs.
+
+spec/codec/Asn1LaxHist.tla is the history layer: Unmarshal / Marshal are functions of their arguments.  TLC
+draws histories of calls on one target type (random walks over the cases with repetition, fresh / re-used
+destination variable and input buffer), checks the laws of the destination model (slots; AbsentOptionalKeeps,
+ElementsAreFresh) and exports them; harness/c10 TestHistory replays them into the fork and encoding/asn1 and
+compares every call with the call alone and the destination with the model; a sample is replayed by several
+goroutines at once under the race detector.
 """
 import json
 
@@ -20,6 +27,13 @@ ASSUME = [
     "'all byte strings and all target types' is decided on the structured family of Asn1Lax.tla (38 type shapes x container "
     "stacks of depth <= 2 over 5 container kinds x 3 value variants x 32 defects x paths x modes) plus seeded byte-level mutations of those inputs",
     "a `lax` struct-field tag (instead of the top-level \"lax\" parameter) is recorded, not asserted (clause FieldTagLax)",
+    "named clauses where the property is silent and both packages have a definite behaviour: times written with a zone "
+    "offset or without seconds are accepted and marshalled by the year as written (ZoneOffset, TagByWrittenYear); equal "
+    "decoded values marshal to equal bytes in both packages, SET OF excepted (MarshalAgrees); an absent OPTIONAL member "
+    "without DEFAULT keeps what the re-used destination held (AbsentOptionalKeeps); nothing is asserted about the "
+    "destination of a rejected call",
+    "'for every sequence of calls' is decided on random walks drawn by TLC (one target type per history, depth 10-14), not "
+    "on all sequences",
 ]
 
 
@@ -33,11 +47,26 @@ def export(ctx, cfg):
     return cases, shapes
 
 
+def histories(ctx):
+    """TLC draws the histories of Asn1LaxHist.tla (laws of the destination model checked on every state)."""
+    n = ctx.pick(600, 8000)
+    r = ctx.tlc("codec", "MCAsn1LaxHist", ctx.pick("Asn1LaxHist.cfg", "Asn1LaxHistDeep.cfg"), simulate=n, depth=40,
+                count=False, timeout=2400)
+    hs = r.records.get("HIST", [])
+    if len(hs) != n:
+        raise Infra("TLC exported %d histories, expected %d" % (len(hs), n))
+    return hs
+
+
 def run(ctx, replay=None):
     ctx.assumptions += ASSUME
     if replay:
         with open(replay) as f:
             rp = json.load(f)["replay"]
+        if "hist" in rp:
+            hp = ctx.write_ndjson("hists.ndjson", [rp["hist"]])
+            ctx.go_test("c10", run="TestHistory$", env={"VERIF_HISTS": hp})
+            return
         cases, shapes = export(ctx, "Asn1Lax.cfg")
         sp = ctx.write_ndjson("shapes.ndjson", shapes)
         if "case" in rp:
@@ -69,6 +98,15 @@ def run(ctx, replay=None):
     env = {"VERIF_CASES": cp, "VERIF_SHAPES": sp}
     # 2. every case against the real decoders (fork strict, fork lax, encoding/asn1)
     ctx.go_test("c10", run="TestReplay$", env=env)
-    # 3. oracle-free laws on byte-level mutations, panic freedom, allocation meter
+    # 3. histories: every call is a function of its arguments (value, remainder, re-marshalled bytes of the call
+    #    alone; destination = the slot model's composition = encoding/asn1's; arguments and earlier results kept);
+    #    a sample concurrently under the race detector
+    hs = histories(ctx)
+    hp = ctx.write_ndjson("hists.ndjson", hs)
+    ctx.log("histories: %d of %d calls" % (len(hs), len(hs[0]["steps"])))
+    ctx.go_test("c10", run="TestHistory$", name="c10history", env={"VERIF_HISTS": hp})
+    ctx.go_test("c10", run="TestHistoryConcurrent$", name="c10race", race=True, timeout=2400,
+                env={"VERIF_HISTS": hp, "VERIF_RACE_HISTS": ctx.pick(60, 400)})
+    # 4. oracle-free laws on byte-level mutations, panic freedom, allocation meter
     ctx.go_test("c10", run="TestMutate$", name="c10mutate", timeout=3000,
                 env=dict(env, VERIF_MUTATIONS=ctx.pick(3000000, 60000000), VERIF_ALLOC_SAMPLES=ctx.pick(3000, 30000)))
